@@ -5,17 +5,14 @@ From IronCalc Require Import Base.Prelude Base.Dec Codec.XmlEscape Codec.XmlEsca
 
 (* ---------- errors: Display on the way out, get_error_by_english_name on the way in ---------- *)
 Lemma read_error_display_b :
-  forallb (fun e => Nat.eqb (read_error (Some (display e)) None) (canon_err e)) (seq 0 n_err) = true.
+  forallb (fun e => Nat.eqb (read_error (Some (display e)) None) e) (seq 0 n_err) = true.
 Proof. vm_compute. reflexivity. Qed.
 
-Lemma read_error_display e : err_in_range e = true -> read_error (Some (display e)) None = canon_err e.
+Lemma read_error_display e : err_in_range e = true -> read_error (Some (display e)) None = e.
 Proof.
   unfold err_in_range. intro H. apply Nat.ltb_lt in H.
   apply Nat.eqb_eq. exact (seq_forallb _ _ read_error_display_b e H).
 Qed.
-
-Lemma canon_err_id e : Nat.eqb e E_NIMPL = false -> canon_err e = e.
-Proof. unfold canon_err. intros ->. reflexivity. Qed.
 
 (* ---------- shared-string index ---------- *)
 Lemma read_index_dec si : 0 <= si -> read_index (Some (dec_of_Z si)) = si.
@@ -93,16 +90,13 @@ Section Proofs.
     assert (Hf : forall v, fval_exact num here v = true -> canon_fval num here v = v).
     { intros [|b|n|t|e o m]; cbn [fval_exact canon_fval]; intro H; try reflexivity.
       - unfold canon_text. rewrite decode_xesc; [reflexivity|]. apply negb_true_iff in H. exact H.
-      - apply andb_true_iff in H as [H Hm]. apply andb_true_iff in H as [H Ho].
-        apply negb_true_iff in H. apply text_eqb_eq in Ho, Hm. rewrite canon_err_id by exact H. congruence. }
+      - apply andb_true_iff in H as [Ho Hm]. apply text_eqb_eq in Ho, Hm. congruence. }
     destruct c as [s|v s|v s|e s|si s|t s|f s v|f s w h k v|s a v]; cbn [CellCodec.exact CellCodec.canonical]; intro H; try reflexivity.
-    - apply negb_true_iff in H. rewrite canon_err_id by exact H. reflexivity.
     - apply negb_true_iff in H. unfold canon_text. rewrite decode_xesc by exact H. reflexivity.
     - rewrite Hf by exact H. reflexivity.
     - rewrite Hf by exact H. reflexivity.
     - destruct v as [b|n|t|e]; try reflexivity.
-      + apply negb_true_iff in H. unfold canon_text. rewrite decode_xesc by exact H. reflexivity.
-      + apply negb_true_iff in H. rewrite canon_err_id by exact H. reflexivity.
+      apply negb_true_iff in H. unfold canon_text. rewrite decode_xesc by exact H. reflexivity.
   Qed.
 
   Theorem cell_types_exact here (c : cell) :
@@ -121,9 +115,9 @@ Section Proofs.
   Lemma unevaluated_array_panics f s w h k : enc (CArray num formula f s w h k (FUneval num)) = Panic.
   Proof. destruct k; reflexivity. Qed.
 
-  (* #N/IMPL! comes back as #ERROR! (F01) *)
-  Lemma nimpl_lost here s :
-    exists x, enc (CErr num formula E_NIMPL s) = Ok x /\ dec None here x = CErr num formula E_ERROR s.
+  (* #N/IMPL! survives since /repo 4a681a0 (F01 repaired) *)
+  Lemma nimpl_kept here s :
+    exists x, enc (CErr num formula E_NIMPL s) = Ok x /\ dec None here x = CErr num formula E_NIMPL s.
   Proof. eexists. split; [reflexivity|]. finish. Qed.
 
   (* origin and message of an error value are not in the file *)
